@@ -42,9 +42,11 @@ def case(spec, log):
                 pass
         state['server'] = spawn_server(('127.0.0.1', 0))
         state['n_servers'] += 1
-        state['streams'] = record_streams(state['server'].addr)
         state['healthy'] = PersistentRemoteWorker(vtargets.pecho, host=state['server'].addr)
         state['hcount'] = 0
+        # a context registered by another (healthy) client: must stay usable whatever faulty clients do
+        state['hctx'] = RemoteContext(901, host=state['server'].addr, target=vtargets.ctx_target, args=[None, 'hctx'], kwargs={'mul': 3})
+        state['streams'] = record_streams(state['server'].addr)
         # context 7 exists for the worker-in-context stream
         return state['server']
 
@@ -65,7 +67,8 @@ def case(spec, log):
             ctx = RemoteContext(900, host=addr, target=vtargets.pecho)
         out['ctx-create'] = bytes(rec.streams.get(tuple(addr), b''))
         with peers.Recorder() as rec:
-            w = PersistentRemoteWorker(None, host=addr, context=900)
+            # a worker request naming the healthy client's context: faulty replays of it hit a live context
+            w = PersistentRemoteWorker(None, host=addr, context=901)
             w.enqueue(1)
             w.wait(10)
         out['ctx-worker'] = bytes(rec.streams.get(tuple(addr), b''))
@@ -116,6 +119,20 @@ def case(spec, log):
             t.start()
             t.join(PROBE_S)
             res['healthy'] = 'hang' if t.is_alive() else ('raised:' + hb['e'] if 'e' in hb else ('ok' if hb.get('v') == (state['hcount'], (), []) else 'wrong:%r' % (hb.get('v'),)))
+            cb = {}
+
+            def cq():
+                try:
+                    cw = PersistentRemoteWorker(None, host=srv.addr, context=901)
+                    cb['v'] = cw.call(7)
+                    cw.wait(5)
+                except BaseException as e:  # noqa
+                    cb['e'] = repr(e)[:100]
+
+            t = threading.Thread(target=cq, daemon=True)
+            t.start()
+            t.join(PROBE_S)
+            res['healthy_context'] = 'hang' if t.is_alive() else ('raised:' + cb['e'] if 'e' in cb else ('ok' if cb.get('v') == ['hctx', 21] else 'wrong:%r' % (cb.get('v'),)))
         return res
 
     new_server()
@@ -133,7 +150,7 @@ def case(spec, log):
                     desc['stream_len'] = len(s)
                     desc['bounds'] = bounds
                     desc['off'] = off
-                    peers.raw_client(srv.addr, s[:off], ending=f['ending'], hold=f.get('hold', 0.0))
+                    peers.raw_client(srv.addr, s[:off], ending=f['ending'], hold=f.get('hold', 0.0), split_last=f.get('split_last', 0.0))
                 elif kind == 'ctrl':
                     # complete data stream of the hand-shake part (header + worker), then play with the control channel
                     s = streams['worker']
@@ -172,7 +189,7 @@ def case(spec, log):
             if f.get('probe', True):
                 res = probe()
                 log.ev('fault', fault=desc, health=res)
-                if not res['server_alive'] or res.get('probe') != 'ok' or res.get('healthy') not in (None, 'ok'):
+                if not res['server_alive'] or res.get('probe') != 'ok' or res.get('healthy') not in (None, 'ok') or res.get('healthy_context') not in (None, 'ok'):
                     new_server()
             else:
                 log.ev('fault', fault=desc, health=None)
@@ -220,6 +237,11 @@ def run(tier):
             offs = sorted(set(list(range(0, 28)) + [r.randrange(28, n) for _ in range(10)])) + [-1]
         for off in offs:
             faults.append(dict(kind='cut', stream=stream, off=off, ending=r.choice(['fin', 'rst']) if not thorough else ('fin' if off % 2 else 'rst')))
+    for stream in est:
+        for ending in ('fin', 'rst'):
+            for split_last in (0.0, 0.3):
+                for hold in (0.0, 0.3):
+                    faults.append(dict(kind='cut', stream=stream, off=-1, ending=ending, split_last=split_last, hold=hold))
     for step in ('never-connect-then-close', 'connect-and-close', 'close-after-info', 'vanish-while-running'):
         for ending in ('fin', 'rst'):
             faults.append(dict(kind='ctrl', step=step, ending=ending))
@@ -266,6 +288,8 @@ def run(tier):
                 prob = 'server-does-not-serve-new-client(%s)' % str(h.get('probe')).split(':')[0]
             elif h.get('healthy') not in (None, 'ok'):
                 prob = 'healthy-worker-of-other-client-disturbed(%s)' % str(h.get('healthy')).split(':')[0]
+            elif h.get('healthy_context') not in (None, 'ok'):
+                prob = 'context-of-other-client-lost(%s)' % str(h.get('healthy_context')).split(':')[0]
             if prob:
                 where = ('sequence' if f.get('sequence') else '%s:%s' % (f.get('stream', 'handshake'), step))
                 chk.violation('%s:%s' % (prob, where), 'after a client that %s: %s; health %s' % (
